@@ -195,35 +195,6 @@ Proof.
   exact T'.
 Qed.
 
-Definition vinit (own : N) : @vstate Out := (new_vec own, O).
-
-Lemma tinv_new own : tinv (new_vec own : vec tout).
-Proof.
-  split; [intros _; reflexivity|]. split; [constructor|]. split; [split; reflexivity|constructor].
-Qed.
-
-Lemma vapply_tinv c s o : tinv (fst s) -> tinv (fst (vapply m c s o)).
-Proof.
-  intros HT. destruct o as [src dep mf cap| | |own]; cbn [vapply fst].
-  - now apply compute_tinv.
-  - now apply write_tinv.
-  - apply reimport_tinv. now apply write_tinv.
-  - destruct (own =? vv (write (fst s))); cbn [fst]; [apply reimport_tinv; now apply write_tinv|apply tinv_new].
-Qed.
-
-(* C19_no_mix (both formats): after any history, every element in memory carries the header's
-   computed version, and every element on disk carries the version recorded on disk *)
-Theorem no_mix c h own :
-  let v := fst (vrun m c h (vinit own)) in
-  Forall (fun x => tver x = cv v) (contents v) /\ Forall (fun x => tver x = disk_cv v) (disk v).
-Proof.
-  assert (H : forall h s, tinv (fst s) -> tinv (fst (vrun m c h s))).
-  { induction h0 as [|o t IH]; intros s Hs; [exact Hs|]. cbn [vrun fold_left]. apply IH. now apply vapply_tinv. }
-  intros v. destruct (H h (vinit own) (tinv_new own)) as (_ & Hm & [_ Hk]). split; assumption.
-Qed.
-
-(* C19_persist: on both formats, after any history the header bookkeeping is consistent, so the
-   recorded version survives write and flush + re-import *)
 Lemma hdr_ok_call compressed src dep mf cap serial (v : vec tout) :
   hdr_ok v -> hdr_ok (fst (compute_tagged m compressed src dep mf cap serial v)).
 Proof.
@@ -239,20 +210,6 @@ Proof.
               ltac:(intros x Hx; apply write_hdr_ok; exact Hx)
               src cap _ None v2 v' r E H2) as (T' & _).
   exact T'.
-Qed.
-
-Theorem persist compressed h own :
-  let v := fst (vrun m compressed h (vinit own)) in
-  cv (write v) = cv v /\ cv (reimport (write v)) = cv v.
-Proof.
-  assert (H : forall h s, hdr_ok (fst s) -> hdr_ok (fst (vrun m compressed h s))).
-  { induction h0 as [|o t IH]; intros s Hs; [exact Hs|]. cbn [vrun fold_left]. apply IH.
-    destruct o as [src dep mf cap| | |own']; cbn [vapply fst].
-    - now apply hdr_ok_call.
-    - now apply write_hdr_ok.
-    - intros _. reflexivity.
-    - destruct (own' =? vv (write (fst s))); cbn [fst]; intros _; reflexivity. }
-  intros v. split; [apply write_cv|]. apply persist_write_reimport. apply H. intros _. reflexivity.
 Qed.
 
 (* one call: what is kept and what is new (both formats) *)
@@ -306,4 +263,79 @@ Proof.
   cbn [firstn]. rewrite app_nil_r, firstn_firstn. f_equal. lia.
 Qed.
 
+
+(* a state that holds results only in the pushed buffer (nothing stored yet): the instance of
+   [discard] that a reset conditional on stored_len() != 0 would break *)
+Theorem discard_unwritten compressed src dep mf cap serial (v : vec tout) :
+  stored v = [] -> pushed v <> [] -> vv v + dep <> cv v ->
+  let v' := fst (compute_tagged m compressed src dep mf cap serial v) in
+  Forall (fun x => snd x = (vv v + dep, serial)) (contents v') /\ cv v' = vv v + dep.
+Proof. intros _ _ Hne. now apply discard. Qed.
+
+(* hand-pushed values: presented under the recorded version *)
+Lemma push_tagged_tinv (v : vec tout) os : tinv v -> tinv (push_tagged v os).
+Proof.
+  intros HT. unfold push_tagged.
+  destruct (push_tinv (cv v) v (hand_push v (map (fun o => (o, (cv v, O))) os)) (map (fun o => (o, (cv v, O))) os)
+              eq_refl HT eq_refl eq_refl) as [_ T'].
+  - unfold meta_eq, hand_push. cbn. tauto.
+  - apply Forall_forall. intros x Hx. apply in_map_iff in Hx. destruct Hx as (o & <- & _). reflexivity.
+  - exact T'.
+Qed.
+
+Lemma push_tagged_hdr_ok (v : vec tout) os : hdr_ok v -> hdr_ok (push_tagged v os).
+Proof. intros H. unfold push_tagged, hand_push, hdr_ok in *. cbn. exact H. Qed.
+
 End C19.
+
+Section C19Hist.
+Context {Src St Out : Type}.
+Variable m : method Src St Out.
+Notation tout := (@tout Out).
+
+Definition vinit (own : N) : @vstate Out := (new_vec own, O).
+
+Lemma tinv_new own : tinv (new_vec own : vec tout).
+Proof.
+  split; [intros _; reflexivity|]. split; [constructor|]. split; [split; reflexivity|constructor].
+Qed.
+
+Lemma vapply_tinv c s o : tinv (fst s) -> tinv (fst (vapply m c s o)).
+Proof.
+  intros HT. destruct o as [src dep mf cap fail|os| | |own]; cbn [vapply fst].
+  - now apply compute_tinv.
+  - now apply push_tagged_tinv.
+  - now apply write_tinv.
+  - apply reimport_tinv. now apply write_tinv.
+  - destruct (own =? vv (write (fst s))); cbn [fst]; [apply reimport_tinv; now apply write_tinv|apply tinv_new].
+Qed.
+
+(* C19_no_mix (both formats): after any history, every element in memory carries the header's
+   computed version, and every element on disk carries the version recorded on disk *)
+Theorem no_mix c h own :
+  let v := fst (vrun m c h (vinit own)) in
+  Forall (fun x => tver x = cv v) (contents v) /\ Forall (fun x => tver x = disk_cv v) (disk v).
+Proof.
+  assert (H : forall h s, tinv (fst s) -> tinv (fst (vrun m c h s))).
+  { induction h0 as [|o t IH]; intros s Hs; [exact Hs|]. cbn [vrun fold_left]. apply IH. now apply vapply_tinv. }
+  intros v. destruct (H h (vinit own) (tinv_new own)) as (_ & Hm & [_ Hk]). split; assumption.
+Qed.
+
+(* C19_persist: on both formats, after any history the header bookkeeping is consistent, so the
+   recorded version survives write and flush + re-import *)
+Theorem persist compressed h own :
+  let v := fst (vrun m compressed h (vinit own)) in
+  cv (write v) = cv v /\ cv (reimport (write v)) = cv v.
+Proof.
+  assert (H : forall h s, hdr_ok (fst s) -> hdr_ok (fst (vrun m compressed h s))).
+  { induction h0 as [|o t IH]; intros s Hs; [exact Hs|]. cbn [vrun fold_left]. apply IH.
+    destruct o as [src dep mf cap fail|os| | |own']; cbn [vapply fst].
+    - now apply hdr_ok_call.
+    - now apply push_tagged_hdr_ok.
+    - now apply write_hdr_ok.
+    - intros _. reflexivity.
+    - destruct (own' =? vv (write (fst s))); cbn [fst]; intros _; reflexivity. }
+  intros v. split; [apply write_cv|]. apply persist_write_reimport. apply H. intros _. reflexivity.
+Qed.
+
+End C19Hist.
